@@ -3,6 +3,7 @@
 package geom
 
 func init() {
+	vfHarnesses["C20_pos_transparency"] = vfhC20PointOnSurfaceTransparency
 	vfHarnesses["C20_setop_transparency"] = vfhC20SetOpTransparency
 }
 
@@ -87,5 +88,69 @@ func vfhC20SetOpTransparency() {
 	vfAssert(err == nil, "UnaryUnion: no error")
 	inUU, _ := vfLocIn(uu, p)
 	vfAssert(inUU == inPlain, "UnaryUnion(with) has a's point set")
+	vfReach("end")
+}
+
+// PointOnSurface is unchanged by an empty member: MultiPoint, MultiLineString of
+// 2-point lines and GeometryCollection with symbolic lattice members around the
+// origin and an empty member at a symbolic position.
+func vfhC20PointOnSurfaceTransparency() {
+	a, b := vfPt("a"), vfPt("b")
+	pos := vfInt("pos", 0, 2)
+	ins := func(n int) []int { // index list with -1 marking the empty member
+		switch pos {
+		case 0:
+			return []int{-1, 0, 1}
+		case 1:
+			return []int{0, -1, 1}
+		default:
+			return []int{0, 1, -1}
+		}
+	}
+	var plain, with Geometry
+	switch vfInt("type", 0, 2) {
+	case 0:
+		pts := []Point{vfPointXY(a), vfPointXY(b)}
+		plain = NewMultiPoint(pts).AsGeometry()
+		var w []Point
+		for _, k := range ins(2) {
+			if k < 0 {
+				w = append(w, NewEmptyPoint(DimXY))
+			} else {
+				w = append(w, pts[k])
+			}
+		}
+		with = NewMultiPoint(w).AsGeometry()
+	case 1:
+		c, d := XY{a.X + 2, a.Y + 1}, XY{b.X - 1, b.Y + 3}
+		ls := []LineString{vfLineXY(a, c), vfLineXY(b, d)}
+		plain = NewMultiLineString(ls).AsGeometry()
+		var w []LineString
+		for _, k := range ins(2) {
+			if k < 0 {
+				w = append(w, LineString{})
+			} else {
+				w = append(w, ls[k])
+			}
+		}
+		with = NewMultiLineString(w).AsGeometry()
+	default:
+		e := vfEmpty(vfInt("kind", 0, vfNumEmpties-1), DimXY)
+		gs := []Geometry{vfPointXY(a).AsGeometry(), vfPointXY(b).AsGeometry()}
+		plain = NewGeometryCollection(gs).AsGeometry()
+		var w []Geometry
+		for _, k := range ins(2) {
+			if k < 0 {
+				w = append(w, e)
+			} else {
+				w = append(w, gs[k])
+			}
+		}
+		with = NewGeometryCollection(w).AsGeometry()
+	}
+	p0, ok0 := plain.PointOnSurface().XY()
+	p1, ok1 := with.PointOnSurface().XY()
+	vfAssert(ok0 && ok1, "non-empty geometries have a point on their surface")
+	vfAssert(vfAnd(p0.X == p1.X, p0.Y == p1.Y), "PointOnSurface is unchanged by an empty member")
 	vfReach("end")
 }
